@@ -145,7 +145,7 @@ Init == l = 1 /\ cas = None /\ canon = None /\ ref = None /\ viol = << >> /\ nch
 TCase ==
   /\ l <= NLines /\ TraceLog[l].e = "Case"
   /\ LET ev == TraceLog[l]
-         ok == /\ ev.err = DenoteErr(ev.fmt, ev.file)
+         ok == /\ ev.err = (IF ev.late THEN DenoteErrLate(ev.fmt, ev.file) ELSE DenoteErr(ev.fmt, ev.file))
                /\ (ev.err = "none" => ToSet(ev.den) = DenSet(ev.fmt, ev.file))
      IN /\ viol' = viol \o Failed(<<I("CaseConsistent", ok)>>, l, ev.sig)
         /\ cas' = ev /\ canon' = None /\ nchecked' = nchecked + 1
